@@ -14,7 +14,10 @@ def adversarial_names(rng, n_random):
     pool = [b'.', b'..', b'..data', b'.. ', b'..a', b'a/b', b'../x', b'/', b'', b'x' * 255, b'y' * 256, b'...', b'.a', b'a.', b'..a', b'a..', b'. ', b' .',
             b'./', b'/.', b'../', b'/..', b'a/', b'/a', b'//', b'a//b', b'.\\', b'..\\', b'\\', b'a\\b', b'\xff', b'\xc0\xaf', b'.\xc0\xaf',
             b'%2e%2e', b'%2f', b'..%2f', b'\x2e\x2e', b'a\x00/b', b'..\x00x', b'.\x00', b'/\x00', b'ok', b'ok2', b'user.x', b'\x01', b'a b',
-            b'\xe2\x88\x95', b'\xef\xbc\x8f', b'..;', b'. .', b'.' * 3 + b'/', b'x' * 254 + b'/', b'x' * 253 + b'/.']
+            b'\xe2\x88\x95', b'\xef\xbc\x8f', b'..;', b'. .', b'.' * 3 + b'/', b'x' * 254 + b'/', b'x' * 253 + b'/.',
+            # (audit 6) the position of the '/' is part of the class: at and beyond NAME_MAX, beyond PATH_MAX, behind an existing long prefix
+            b'x' * 255 + b'/', b'x' * 255 + b'/y', b'x' * 256 + b'/', b'x' * 255 + b'/../../a', b'x' * 300 + b'/..', b'x' * 511 + b'/' + b'y' * 8,
+            b'x' * 4094 + b'/', b'x' * 4096 + b'/z', b'/' + b'x' * 255, b'x' * 255 + b'/.', b'x' * 255 + b'/..']
     alpha = [b'.', b'/', b'a', b'\\', b'\xff', b' ']
     for _ in range(n_random):
         pool.append(b''.join(rng.choice(alpha) for _ in range(rng.randint(1, 5))))
@@ -124,6 +127,21 @@ def gen_history(rng, tree, R, abs_sentinel, n_ops, k=0):
         ops.append({'op': 'setattr', 'i': ls, 'h': None, 'valid': 1 | 2 | 4, 'mode': 0o777, 'uid': 7, 'gid': 7, 'size': 0})
         ops.append({'op': 'setxattr', 'i': ls, 'name': b'user.k', 'value': b'v', 'flags': 0})
         ops.append({'op': 'getxattr', 'i': ls, 'name': b'user.k', 'size': 16})
+    # (audit 6) a '/' beyond NAME_MAX bytes behind an EXISTING NAME_MAX-long directory: "<255 x>/../../a" names the sentinel file
+    LONG = b'x' * 255
+    ops.append({'op': 'mkdir', 'p': 0, 'name': LONG, 'mode': 0o755, 'umask': 0, 'uid': 0, 'gid': 0}); ni += 1
+    for tail in (b'/../../a', b'/../../made-long', b'/y'):
+        nm_ = LONG + tail
+        ops.append({'op': 'lookup', 'p': 0, 'name': nm_}); ni += 1
+        ops.append({'op': 'create', 'p': 0, 'name': nm_, 'mode': 0o666, 'umask': 0, 'flags': 0x242, 'fuse_flags': 0, 'uid': 0, 'gid': 0}); ni += 1; nh += 1
+        ops.append({'op': 'mkdir', 'p': 0, 'name': nm_, 'mode': 0o755, 'umask': 0, 'uid': 0, 'gid': 0}); ni += 1
+        ops.append({'op': 'mknod', 'p': 0, 'name': nm_, 'mode': 0o100644, 'rdev': 0, 'umask': 0, 'uid': 0, 'gid': 0}); ni += 1
+        ops.append({'op': 'symlink', 'p': 0, 'name': nm_, 'target': b'f', 'uid': 0, 'gid': 0}); ni += 1
+        ops.append({'op': 'link', 'i': 2, 'p': 0, 'name': nm_}); ni += 1
+        ops.append({'op': 'rename', 'p': 0, 'name': b'f', 'p2': 0, 'name2': nm_, 'flags': 0})
+        ops.append({'op': 'rename', 'p': 0, 'name': nm_, 'p2': 0, 'name2': b'long-moved', 'flags': 0})
+        ops.append({'op': 'unlink', 'p': 0, 'name': nm_})
+        ops.append({'op': 'rmdir', 'p': 0, 'name': nm_})
     ops.append({'op': 'create', 'p': 0, 'name': b'tmpf', 'mode': 0o644, 'umask': 0, 'flags': 0x42, 'fuse_flags': 0, 'uid': 0, 'gid': 0}); ni += 1; nh += 1
     ops.append({'op': 'rename', 'p': 0, 'name': b'tmpf', 'p2': 0, 'name2': [b'rel', b'dang', b'reldir'][k % 3], 'flags': 0})
     n_ops += len(ops) - 6
@@ -270,7 +288,7 @@ def run_check(tier, seed):
             samples.append({'vfs_name_case': [vops[1][0], vops[1][1].hex(), hs[0]['ops'][1]['raw'], hs[0]['ops'][1]['calls']]})
         # at a standalone PassthroughFs (fresh scratch export; creations included for a few names only)
         exp = os.path.join(base, 'names-export'); os.makedirs(exp)
-        pops = name_ops(names, False) + name_ops([b'.', b'..', b'a/b', b'/', b'ok', b'x' * 255, b'', b'..\x00x'], True)
+        pops = name_ops(names, False) + name_ops([b'.', b'..', b'a/b', b'/', b'ok', b'x' * 255, b'', b'..\x00x', b'x' * 255 + b'/', b'x' * 255 + b'/y', b'x' * 255 + b'/../../a', b'x' * 300 + b'/..'], True)
         lines = ['H names pt %s xattr=1,digest=1' % exp] + [op_line(o) for _, _, o in pops] + ['E']
         before = sorted(os.listdir(exp))
         rc, out = run_ptfs(bindir, lines, 'c06names-pt')
@@ -433,7 +451,7 @@ def run_check(tier, seed):
             if 'pt' in hh and 'vfs' in hh and hh['k'] % len(cfgs) == 0:
                 ivalid = [True]; hvalid = []
                 for j, (o, a, b) in enumerate(zip(hh['ops'], hh['pt']['ops'], hh['vfs']['ops'])):
-                    ka = {k: v for k, v in a['r'].items() if k not in ('ino', 'dev', 'ents', 'pents', 'atime', 'mtime', 'now')}; kb = {k: v for k, v in b['r'].items() if k not in ('ino', 'dev', 'ents', 'pents', 'atime', 'mtime', 'now')}
+                    ka = {k: v for k, v in a['r'].items() if k not in ('ino', 'dev', 'ents', 'pents', 'atime', 'mtime', 'ctime', 'now')}; kb = {k: v for k, v in b['r'].items() if k not in ('ino', 'dev', 'ents', 'pents', 'atime', 'mtime', 'ctime', 'now')}
                     if refs_valid(o, ivalid, hvalid) and ka != kb:
                         broken.append({'kind': 'correspondence', 'name': 'PassthroughFs behind a Vfs answers differently from the standalone one',
                                        'history': hh['k'], 'request': op_line(o), 'standalone': a['raw'], 'behind_vfs': b['raw']}); break
